@@ -124,6 +124,8 @@ void log(const String& cat, Log::Level level, ASL_PRINTF_W1 const char* fmt, ...
 
 void Log::log(const String& cat, Log::Level level, const String& message)
 {
+	Lock lock(*_mutex); // updateState() rewrites _logfile, _maxLevel and the flags: not outside the lock
+
 	updateState();
 	if (level > _maxLevel)
 		return;
@@ -137,8 +139,6 @@ void Log::log(const String& cat, Log::Level level, const String& message)
 	int i1 = (dot<i0) ? cat.length() : dot; // a '.' in the directory part is not an extension
 	String catg = cat.substring(i0, i1);
 	bool useconsole = _useconsole;
-
-	Lock lock(*_mutex);
 
 #ifndef __ANDROID_API__
 	String logfile = _logfile;
